@@ -155,6 +155,29 @@ def t_componentwise(src):
     return f"(* {where} *)\nDefinition componentwise_W (dim : nat) : mat := eye dim.\n"
 
 
+def t_order_subclasses(src):
+    """the bundled orders are PolyhedralConeOrder with a particular W and nothing else: no subclass may
+    override dominates / get_pareto_set / get_pareto_set_naive (the theorems about the facet test and the
+    Pareto routines speak about the inherited methods)"""
+    where = "vopy/order.py:subclasses of PolyhedralConeOrder"
+    mod = src.module("vopy/order.py")
+    allowed = {"ComponentwiseOrder": {"__init__"}, "ConeTheta2DOrder": {"__init__"}, "ConeOrder3D": {"__init__"},
+               "ConeOrder3DIceCream": {"__init__", "compute_ice_cream_cone"}}
+    seen = []
+    for n in mod.body:
+        if isinstance(n, ast.ClassDef) and any(ast.unparse(b) == "PolyhedralConeOrder" for b in n.bases):
+            meths = {m.name for m in n.body if isinstance(m, (ast.FunctionDef, ast.AsyncFunctionDef))}
+            attrs = [t for m in n.body if isinstance(m, ast.Assign) for t in m.targets]
+            if n.name not in allowed:
+                raise Reject(where, f"unknown order subclass {n.name}")
+            if not meths <= allowed[n.name] or attrs:
+                raise Reject(where, f"{n.name} defines {sorted(meths - allowed[n.name])} / class attributes: the inherited facet test is overridden")
+            seen.append(n.name)
+    if sorted(seen) != sorted(allowed):
+        raise Reject(where, f"order subclasses found: {seen}")
+    return f"(* {where}: {', '.join(seen)} define only their constructor *)\nDefinition bundled_orders_inherit_facet_test : bool := true.\n"
+
+
 # ------------------------------------------------------------------ rectangles (C09, C14)
 class VecC:
     """vector expressions over Q: names, + - * (Hadamard), / literal, np.maximum / np.minimum"""
@@ -489,6 +512,7 @@ def run(src, out):
     out.attempt(f, "dominates", lambda: t_dominates(src))
     out.attempt(f, "cone3d", lambda: t_cone3d(src))
     out.attempt(f, "componentwise", lambda: t_componentwise(src))
+    out.attempt(f, "order_subclasses", lambda: t_order_subclasses(src))
     f = "Gen_region.v"
     hdr[f] = (HEADER.format(src="vopy/confidence_region.py, vopy/utils/utils.py")
               + "From Coq Require Import QArith Qminmax List Bool.\nFrom VOPy Require Import QVec Cone Rect.\nFrom VOPyGen Require Import Gen_order.\n"
@@ -520,4 +544,6 @@ def run(src, out):
     steps.run(src, out, hdr)
     import formulas
     formulas.run(src, out, hdr)
+    import auer
+    auer.run(src, out, hdr)
     return hdr
